@@ -73,7 +73,11 @@ def call_contract_fn(ip, c, which, params, extra=None):
             vals.append(None)        # a local of the callee's body: not visible at a call site
         else:
             raise Unsupported(f'contract {c.key}.{which}: unknown parameter {n}')
-    return ip.call_ast(f, vals, {})
+    try:
+        return ip.call_ast(f, vals, {})
+    except PyRaise as r:
+        # an error inside contract text (requires / ensures) is never program behaviour
+        raise Unsupported(f'contract {c.key}.{which} raised {r.cls.__name__}: {getattr(r.value, "args", "")}')
 
 
 def apply_contract(ip, f: AstFunc, args, kwargs):
@@ -118,9 +122,10 @@ def apply_to_params(ip, c, params):
                         raise Unsupported(f'site assertion {cc.key}[{short}#{k}]: no local {n}')
                     vals.append(v)
             for label, cond in ip.clauses(ip.call_ast(af, vals, {})):
-                ctx.oblige(f'{caller}/site[{short}#{k}]/{label}', cond, 'site')
+                ctx.oblige(f'{caller}/site[{short}#{k}]/{label}', ip.cval(cond), 'site')
     # 1. preconditions are obligations of the caller
     for label, cond in all_clauses(ip, c, 'requires', params):
+        cond = ip.cval(cond)
         ctx.oblige(f'{site}/{label}', cond, 'pre')
         ctx.assume(cond)
     oparams = dict(params)
@@ -187,7 +192,7 @@ def apply_to_params(ip, c, params):
                        {'old': old, 'result': result, 'raised': raised.cls if raised else None})
     for label, cond in post:
         if not label.startswith('!'):      # '!' clauses are obligations of the callee only, never assumed
-            ctx.assume(cond)
+            ctx.assume(ip.cval(cond))
     if spec is None and not ctx.ghost.get('speculating', 0) and not ctx.feasible():
         raise PathAbort('infeasible')      # the chosen outcome contradicts the callee's postcondition
     if raised is not None:
